@@ -34,9 +34,12 @@ type Config struct {
 	MapOrderPerm   int
 	AtomicsVisible bool
 	DeadlockOK     bool
+	SleepSets      bool
+	NoSched        []string // package-level mutexes ("pkgpath.var") whose uncontended Lock/Unlock are not scheduling points
 	Silence        []string
 	NoInit         []string
 	RunInit        []string
+	Summarize      []string // pure functions merged into ite-terms instead of forking
 	Stub           []string // functions (full SSA names) replaced by "return zero values"
 	Reach          []string // labels that must be reached
 	SolverMs       int
@@ -49,6 +52,15 @@ type Config struct {
 func (c *Config) noInit(path string) bool {
 	for _, p := range c.NoInit {
 		if path == p || strings.HasPrefix(path, p+"/") {
+			return true
+		}
+	}
+	return false
+}
+
+func (c *Config) summarized(name string) bool {
+	for _, p := range c.Summarize {
+		if name == p {
 			return true
 		}
 	}
@@ -87,7 +99,7 @@ var defaultSilence = []string{
 
 func defaultConfig() Config {
 	return Config{Unwind: 16, MaxSteps: 2_000_000, MaxDepth: 200, MaxDecisions: 4000, MaxPaths: 200000, Preempt: 2,
-		Timers: "lazy", MapOrderPerm: 0, SolverMs: 20000, Workers: 8, Raw: map[string]string{}}
+		Timers: "lazy", MapOrderPerm: 0, SleepSets: true, SolverMs: 20000, Workers: 8, Raw: map[string]string{}}
 }
 
 // apply parses "key=value" options.
@@ -120,6 +132,10 @@ func (c *Config) apply(opts []string) error {
 			c.MapOrderPerm = atoi()
 		case "atomics":
 			c.AtomicsVisible = v == "1" || v == "true" || v == "visible"
+		case "nosched":
+			c.NoSched = append(c.NoSched, strings.Split(v, ",")...)
+		case "sleepsets":
+			c.SleepSets = v == "1" || v == "true"
 		case "deadlockok":
 			c.DeadlockOK = v == "1" || v == "true"
 		case "silence":
@@ -128,6 +144,8 @@ func (c *Config) apply(opts []string) error {
 			c.NoInit = append(c.NoInit, strings.Split(v, ",")...)
 		case "runinit":
 			c.RunInit = append(c.RunInit, strings.Split(v, ",")...)
+		case "summarize":
+			c.Summarize = append(c.Summarize, strings.Split(v, ",")...)
 		case "stub":
 			c.Stub = append(c.Stub, strings.Split(v, ",")...)
 		case "reach":
@@ -156,6 +174,7 @@ type Engine struct {
 	methodCache    sync.Map
 	silenceList    []string
 	known          []knownFinding
+	noSchedGlobals []*ssa.Global
 	concreteInputs map[string]any
 	errIface       *types.Interface
 }
@@ -327,4 +346,25 @@ func mustAbs(p string) string {
 		panic(err)
 	}
 	return a
+}
+
+// resolveNoSched maps the nosched= names to SSA globals.
+func (e *Engine) resolveNoSched() error {
+	for _, n := range e.cfg.NoSched {
+		i := strings.LastIndex(n, ".")
+		if i < 0 {
+			return fmt.Errorf("nosched: bad name %q", n)
+		}
+		var g *ssa.Global
+		for _, p := range e.prog.AllPackages() {
+			if p.Pkg.Path() == n[:i] {
+				g, _ = p.Members[n[i+1:]].(*ssa.Global)
+			}
+		}
+		if g == nil {
+			return fmt.Errorf("nosched: global %q not found", n)
+		}
+		e.noSchedGlobals = append(e.noSchedGlobals, g)
+	}
+	return nil
 }
